@@ -491,7 +491,7 @@ def gen_scenario(seed: int, stream: str = "shocked", **over) -> dict:
     if stream == "eventfree" and "scale" not in over and rng.random() < 0.25:
         # very small magnitudes (a table in a huge unit): every flow below NumPy's absolute tolerance 1e-8
         over = dict(over, scale=10.0 ** rng.choice([-9, -12, -15]))
-    tiny_ = stream == "eventfree" and random.Random(seed ^ 0x71).random() < 0.3
+    tiny_ = (stream == "eventfree" and random.Random(seed ^ 0x71).random() < 0.3) or bool(over.get("tiny"))
     if tiny_ and "m" not in over:
         over = dict(over, m=random.Random(seed ^ 0x75).choice([2, 2, 3]))      # (its sector has another regional supplier)
     if tiny_ and random.Random(seed ^ 0x76).random() < 0.7:
